@@ -22,3 +22,37 @@ def c05_report_stability(inp, obligation):
     if not np.array_equal(np.asarray(reported, dtype=float), copy_at_report):
         bad.append("the result reported at the first stop was %r, after continuing the same object reads %r" % (copy_at_report.tolist(), np.asarray(reported).tolist()))
     return bool(bad), {"violations": bad}
+
+
+def _component_sum_cases(kinds):
+    """the real strategies run through the public API; at the stop the reported result is compared with the coefficient-weighted sum of the component
+    results recomputed independently (clause B.comp.sum of the bounded layer, restricted to the strategy the refuted obligation belongs to)"""
+    from bounded import api, C05 as H
+    ctx = api.Ctx("C05", "quick", 0, 60.0)
+    n = 0
+    if "dimwise" in kinds:
+        for case in H.anchor_cases():
+            if case["cfg"]["strategy"] == "dimwise":
+                ctx.case(case)
+                H.dispatch(ctx, case)
+                n += 1
+    if "standard" in kinds:
+        for case in H.gen_standard(ctx):
+            if n >= 12 or ctx.out_of_time(0.8):
+                break
+            ctx.case(case)
+            H.dispatch(ctx, case)
+            n += 1
+    hits = [v for v in ctx.violations if v["clause"] in ("B.comp.sum", "B.scratch.equal", "B.nodal.rule") and "doubles" not in v["witness_class"]]
+    bad = ["%s @ %s [%s]: %s" % (v["clause"], v["site"], v["witness_class"], v["message"][:300]) for v in hits]
+    return bool(bad), {"cases": n, "violations": bad[:5], "history": hits[0]["case"] if hits else None}
+
+
+@handler("C05.dimwise_component")
+def c05_dimwise_component(inp, obligation):
+    return _component_sum_cases({"dimwise"})
+
+
+@handler("C05.standard_component")
+def c05_standard_component(inp, obligation):
+    return _component_sum_cases({"standard"})
